@@ -59,6 +59,7 @@ func runC05(c *Collector, r *Rng, thorough bool) {
 		d := decodeCase(c, "corpus/"+cs.kind, cs.kind, b)
 		c05Oracle(c, cs.kind, b, &d)
 	}
+	c05GovernedGrid(c)
 	for _, kind := range kinds {
 		for i := 0; i < n; i++ {
 			cfg := defaultCfg
@@ -175,5 +176,60 @@ func c05Oracle(c *Collector, kind string, data []byte, d *decoded) {
 			key = "C05/selfdescribed-tag-stripped"
 		}
 		c.Fail(key, kind+" decoder accepted input violating C05: "+err.Error(), map[string]any{"kind": kind, "data": hx(data)})
+	}
+}
+
+// c05GovernedGrid: every parameter the RFC gives a type to (1 alg, 2 crit, 3 content type, 4 kid, 5 IV, 6 Partial IV,
+// 7 / 11 countersignature, 9 / 12 abbreviated countersignature, 16 typ) x every shape a CBOR value can have (null,
+// undefined, booleans, integers, empty and non-empty byte and text strings, arrays, maps, floats; for crit also byte
+// strings and arrays whose elements happen to be numbers of labels that are present) x both buckets x four layers
+// (standalone bucket, COSE_Sign1, a signer of a COSE_Sign, a countersignature nested in a COSE_Sign1): whatever a
+// decoder accepts satisfies the section 3.1 rules (own reference reader), and the model gives the same verdict.
+func c05GovernedGrid(c *Collector) {
+	shapes := func() []*W {
+		return []*W{wNull(), wUndef(), wBool(true), wBool(false), wInt(0, -1), wInt(1, -1), wInt(-7, -1), wInt(24, -1),
+			wBstr(nil, -1), wBstr([]byte{1}, -1), wBstr([]byte{1, 4}, -1), wTstr("", -1), wTstr("a", -1), wTstr("a/b", -1),
+			wArr(-1), wArr(-1, wInt(1, -1)), wArr(-1, wInt(4, -1)), wArr(-1, wNull()), wArr(-1, wBstr([]byte{1}, -1)), wArr(-1, wInt(1, -1), wInt(4, -1)),
+			wMap(-1), wMap(-1, wInt(1, -1), wInt(4, -1)), wFloat16bits(0x3c00), wFloat64(1.5),
+			wArr(-1, wBstr(nil, -1), wMap(-1), wBstr([]byte{1}, -1))}
+	}
+	for _, label := range []int64{1, 2, 3, 4, 5, 6, 7, 9, 11, 12, 16} {
+		for si := range shapes() {
+			for _, protected := range []bool{true, false} {
+				mkBuckets := func() (*W, *W) {
+					v := shapes()[si]
+					kv := []*W{}
+					if label != 1 {
+						kv = append(kv, wInt(1, -1), wInt(-7, -1))
+					}
+					if label != 4 {
+						kv = append(kv, wInt(4, -1), wBstr([]byte("k"), -1))
+					}
+					kv = append(kv, wInt(label, -1), v)
+					if protected {
+						return wBstr(wMap(-1, kv...).Ser(), -1), wMap(-1)
+					}
+					return wBstr(wMap(-1, wInt(1, -1), wInt(-7, -1)).Ser(), -1), wMap(-1, kv[len(kv)-2:]...)
+				}
+				class := fmt.Sprintf("governed-grid/label-%d/protected=%v", label, protected)
+				run := func(kind string, w *W) {
+					b := w.Ser()
+					d := decodeCase(c, class, kind, b)
+					c05Oracle(c, kind, b, &d)
+				}
+				pb, ub := mkBuckets()
+				if protected {
+					run("DProt", pb)
+				} else {
+					run("DUnprot", ub)
+				}
+				pb, ub = mkBuckets()
+				run("DSign1", wTag(18, -1, wArr(-1, pb, ub, wBstr([]byte("p"), -1), wBstr([]byte{1}, -1))))
+				pb, ub = mkBuckets()
+				run("DSignMsg", wTag(98, -1, wArr(-1, wBstr(nil, -1), wMap(-1), wBstr([]byte("p"), -1), wArr(-1, wArr(-1, pb, ub, wBstr([]byte{1}, -1))))))
+				pb, ub = mkBuckets()
+				run("DSign1", wTag(18, -1, wArr(-1, wBstr(nil, -1), wMap(-1, wInt(7, -1), wArr(-1, pb, ub, wBstr([]byte{1}, -1))), wBstr([]byte("p"), -1), wBstr([]byte{1}, -1))))
+			}
+		}
 	}
 }
